@@ -447,6 +447,17 @@ def rule_parse_polls_deadline(ctx, rep, rid: str) -> None:
                     rep.bad(rid, k2, f"{f.qual} builds a Parser without the deadline callback: this parse runs outside the time limit", f"{f.module.rel}:{c.lineno}")
     if n < 1:
         raise AnalysisError(f"{rid}: no Parser construction found outside the front end")
+    # every lexer the front end itself builds (the parser's own, and any scratch lexer a look-ahead reads from) polls too
+    for f in ctx.tree.funcs:
+        if f.module.name != "parser" or isinstance(f.node, ast.Lambda):
+            continue
+        for c in f.own_nodes():
+            if isinstance(c, ast.Call) and isinstance(c.func, ast.Name) and c.func.id == "Lexer":
+                k3 = f"{f.qual}:Lexer(..)"
+                if len(c.args) >= 2 or any(kw.arg == "poll" for kw in c.keywords):
+                    rep.ok(rid, k3)
+                else:
+                    rep.bad(rid, k3, f"{f.qual} builds a Lexer without the deadline callback: the tokens it reads (a look-ahead that re-reads nested parentheses at every level is quadratic) are neither counted nor checked against the time limit", f"{f.module.rel}:{c.lineno}")
 
 
 # ---- characters a delimited token must not contain are excluded on every path that produces the token --------
